@@ -20,6 +20,11 @@ Inductive c07fcase :=
 (* a file whose conversion failed: the real location tree, the declarations with the SourceNode paths
    sourcewalk gives them, and the positions of the conversion errors in the order they were returned *)
 | CConvPos (t : loc) (lf : list ldecl) (observed : list span)
+(* a conversion error below a declaration the converter model keeps abstract (a property of a service method's
+   request / response, a field of a topic message): the real location tree, the SourceNode path sourcewalk gives the
+   failing node (supplied by the harness, per error), and the observed positions.  Only the model of child / GetPos
+   is exercised: the position of each error is the span recorded for its path, or for the nearest recorded ancestor *)
+| CChildPos (t : loc) (paths : list (list string)) (observed : list span)
 (* functions of the walker packages executed by the crash stream (go build -cover counters) *)
 | CWalkCov (covered : list fkey)
 (* package loading: a bundle of well-formed files with the given import graph (missing packages, cycles),
@@ -52,6 +57,7 @@ Definition c07f_check (c : c07fcase) : bool :=
       end
   | CConvPos t lf observed =>
       forallb ldecl_wf lf && list_eqb span_eqb (map snd (conv_errors t lf)) observed
+  | CChildPos t paths observed => list_eqb span_eqb (map (fun p => child_span p t) paths) observed
   | CWalkCov covered => coverage_ok covered
   | CPkgLoad b name kind has_pos =>
       (* resolveDependencies ranges over a map: any outcome some iteration order produces is admissible; the two
